@@ -78,6 +78,43 @@ def _l1_worker(args):
     return out
 
 
+def _edge_worker(args):
+    """Buffer / Fleet EDGE histories (with the edges' own queries in between) for the store-level properties
+    C01 / C02: oracle on the implementation's rows + model disagreements on the fields of the property"""
+    pid, which, n, seed = args
+    from harness import edge_oracle
+    mod = tbuffer if which == "tbuffer" else tfleet
+    rng = random.Random(seed)
+    cases = [mod.gen_case(rng, rng.randrange(10, 70)) for _ in range(n)]
+    out = dict(evals=0, tags=collections.Counter(), sigs=set(), dis=[], viol=[], samples=[], ops=collections.Counter(), errs=collections.Counter())
+    for lo in range(0, len(cases), 300):
+        for r in mod.run_batch(cases[lo:lo + 300]):
+            c = r["case"]
+            out["evals"] += 1
+            out["sigs"].add((which, c["cap"], tuple(o[0] for o in r["micro"])))
+            for o in r["micro"]:
+                out["ops"]["edge:" + o[0]] += 1
+            if r["dis"] and r["dis"][-1] != "ILLEGAL" and isinstance(r["dis"][-1], dict) and isinstance(r["dis"][-2], dict):
+                i, da, db = r["dis"][0], r["dis"][-2], r["dis"][-1]
+                diff = {f for f in set(da) | set(db) if da.get(f) != db.get(f)}
+                rel = diff & L1_FIELDS[pid]
+                if pid == "C01":
+                    cnt = lambda d, f: len([x for x in (d.get(f) or "").split(",") if x])
+                    rel = {f for f in ("items", "ready", "putres") if f in diff and cnt(da, f) != cnt(db, f)}
+                if rel:
+                    out["dis"].append(dict(case=c, op_index=i, micro_op=list(r["micro"][i]) if i < len(r["micro"]) else None,
+                                           fields=sorted(diff), impl=da, model=db))
+            rows = [x if isinstance(x, dict) else mod.split(x) for x in r["impl"]]
+            for prop, i, msg in edge_oracle.check(c, r["micro"], rows):
+                if prop == pid:
+                    out["viol"].append(dict(**{"class": which}, message=msg, op_index=i, case=c,
+                                            micro=[list(o) for o in r["micro"][:i + 1]], impl_rows=rows[max(0, i - 2):i + 1]))
+                    break
+    out["sigs"] = len(out["sigs"])
+    out["dis"], out["viol"] = out["dis"][:3], out["viol"][:3]
+    return out
+
+
 def load_corpus(model, kind):
     out = []
     anykind = kind is None
@@ -100,8 +137,15 @@ def run_l1(pid, tier, seed):
         shards = 1 if tier == "quick" else 8
         for sh in range(shards):
             jobs.append((pid, model, kind, n // shards, seed * 1000 + ci * 50 + sh, corpus if sh == 0 else []))
-    with multiprocessing.Pool(min(16, len(jobs))) as pool:
-        outs = pool.map(_l1_worker, jobs)
+    ejobs = []
+    if pid in ("C01", "C02"):
+        ne = 400 if tier == "quick" else 24000
+        esh = 2 if tier == "quick" else 8
+        ejobs = [(pid, which, ne // esh, seed * 811 + 13 * k + (0 if which == "tbuffer" else 7)) for which in ("tbuffer", "tfleet") for k in range(esh)]
+    with multiprocessing.Pool(min(16, len(jobs) + len(ejobs))) as pool:
+        a1 = pool.map_async(_l1_worker, jobs)
+        a2 = pool.map_async(_edge_worker, ejobs)
+        outs = a1.get() + a2.get()
     res = dict(evaluations=0, distinct_nontrivial=0, samples=[], traces=0, disagreements=[], violations=[], known=[],
                distribution={})
     tags, ops, errs = collections.Counter(), collections.Counter(), collections.Counter()
@@ -121,6 +165,11 @@ def run_l1(pid, tier, seed):
                    "sequence)" % (["%s/%s" % c for c in l1.CLASSES],))
     res["distribution"] = dict(histories_reaching=dict(tags), micro_ops=dict(ops), error_kinds=dict(errs))
     res["domain"] = "store classes: ReservableReqStore, ReservablePriorityReqStore, ReservablePriorityReqFilterStore, BufferStore (FIFO/LIFO), FleetStore"
+    if ejobs:
+        res["rule"] += ("; plus histories on the real Buffer and Fleet EDGE objects (harness/tbuffer.py, harness/tfleet.py: reserve / put / get / "
+                        "cancel with the edges' own queries can_put / can_get / occupancy in between), judged by harness/edge_oracle.py "
+                        "(capacity bound, granted put / get honoured, contents = puts - gets) and compared with the timed edge models")
+        res["domain"] += "; Buffer and Fleet edge objects over those stores"
     return res
 
 
@@ -174,7 +223,39 @@ def run_c05(pid, tier, seed):
         res["disagreements"] += o["dis"][:2]; res["violations"] += o["viol"][:2]; res["samples"] += o["samples"][:1]
     res["rule"] += "; plus PriorityReqStore histories (put/get requests with priorities, kernel pops, cancels of waiting requests)"
     res["domain"] += ", PriorityReqStore"
+    # the belt stores serve entry requests first come, first served although their gate opens by the passage of time
+    nb = 480 if tier == "quick" else 32000
+    with multiprocessing.Pool(16) as pool:
+        bouts = pool.map(_belt_fcfs_worker, [(nb // 16, seed * 733 + k) for k in range(16)])
+    for o in bouts:
+        res["evaluations"] += o["evals"]; res["traces"] += o["evals"]; res["distinct_nontrivial"] += o["sigs"]
+        res["violations"] += o["viol"][:1]; res["disagreements"] += o["dis"][:1]
+    res["rule"] += ("; plus runs of both conveyor classes with 2-3 producer processes whose requests coincide with the opening of the "
+                    "entrance (harness/belt.py, clause fcfs-entry: entry requests are granted in the order in which they were made)")
+    res["domain"] += ", both belt stores (entry requests)"
     return res
+
+
+def _belt_fcfs_worker(args):
+    n, seed = args
+    rng = random.Random(seed)
+    cases = [belt.gen_case(rng, nprod=rng.choice([2, 2, 3])) for _ in range(n)]
+    out = dict(evals=0, sigs=set(), dis=[], viol=[])
+    for lo in range(0, len(cases), 300):
+        for r in belt.run_batch(cases[lo:lo + 300]):
+            c = r["case"]
+            out["evals"] += 1
+            out["sigs"].add((c["kind"], c["acc"], tuple(o[0] for o in r["ops"] if o[0] != "IDLE")))
+            if r["dis"] and not c.get("odd_length"):
+                j, op, a, b = r["dis"]
+                if op and op[0] in ("RSV", "PUT"):
+                    out["dis"].append(dict(case=c, op_index=j, op=op, impl=a, model=b))
+            for prop, clause, msg in belt.oracle(c, r):
+                if prop == "C05":
+                    out["viol"].append(dict(**{"class": "belt"}, message="[%s/%s] %s" % (_belt_tag(c), clause, msg), case=c))
+                    break
+    out["sigs"] = len(out["sigs"])
+    return out
 
 
 # ------------------------------------------------------------------ C11 (timed Buffer edge)
@@ -324,6 +405,17 @@ def _belt_tag(c):
     return "%s/%s" % (c["kind"], "acc" if c["acc"] else "nonacc")
 
 
+def _belt_on_grid(c):
+    """one producer and every arrival gap, service time and the consumer's start a whole number of slot times:
+    the known early release of a follower on the continuous accumulating belt needs off-grid times or two
+    producers, so an overlap on such a case is NOT that finding"""
+    if c["kind"] != "cont" or len(c["producers"]) != 1 or isinstance(c["producers"][0], dict) or c.get("real") or c.get("odd_length"):
+        return False
+    u = c["item_length"] / c["speed"]
+    vals = list(c["producers"][0]) + list(c["services"]) + [c["first_get"]]
+    return all(abs(v / u - round(v / u)) < 1e-9 for v in vals)
+
+
 def _belt_worker(args):
     pid, n, seed, corpus, odd = args
     rng = random.Random(seed)
@@ -373,7 +465,8 @@ def _belt_worker(args):
             for prop, clause, msg in belt.oracle(c, r):
                 if prop != pid or (c.get("odd_length") and clause not in ("capacity", "exact-travel", "min-travel")):
                     continue
-                tagc = "[%s/%s%s]" % (_belt_tag(c), "odd-length/" if c.get("odd_length") else "", clause)
+                tagc = "[%s/%s%s%s]" % (_belt_tag(c), "odd-length/" if c.get("odd_length") else "",
+                                        "grid/" if clause in ("acc-overlap", "acc-exit-shared") and _belt_on_grid(c) else "", clause)
                 if tagc not in seen:
                     seen.add(tagc)
                     out["viol"].append(dict(**{"class": "belt"}, message=tagc + " " + msg, case=c))
@@ -646,6 +739,9 @@ def replay(pid, path):
         for o, a, b in zip(r["micro"], r["impl"], r["model"]):
             print(o, "\n   impl ", a, "\n   model", b)
         v = tfleet.oracle(case, r["micro"], r["impl"])
+        if pid in ("C01", "C02"):
+            from harness import edge_oracle
+            v = [x for x in edge_oracle.check(case, r["micro"], [x if isinstance(x, dict) else tfleet.split(x) for x in r["impl"]]) if x[0] == pid]
         print("oracle:", v, "first disagreement:", r["dis"])
         return 1 if v or r["dis"] else 0
     if model == "tbuffer":
@@ -653,6 +749,9 @@ def replay(pid, path):
         for o, a, b in zip(r["micro"], r["impl"], r["model"]):
             print(o, "\n   impl ", a, "\n   model", b)
         v = tbuffer.oracle(case, r["micro"], r["impl"], r["draws"])
+        if pid in ("C01", "C02"):
+            from harness import edge_oracle
+            v = [x for x in edge_oracle.check(case, r["micro"], [x if isinstance(x, dict) else tbuffer.split(x) for x in r["impl"]]) if x[0] == pid]
         print("oracle:", v, "first disagreement:", r["dis"])
         return 1 if v or r["dis"] else 0
     if "nodes" in case:
